@@ -181,6 +181,44 @@ func step(w []string, _ string) string {
 			default:
 				return "valid"
 			}
+		case "nested":
+			// nested <rounds>: one goroutine keeps subscribing / unsubscribing x on a filter, a second one keeps
+			// subscribing y on a filter BELOW it (the branch exists only while x is there), looking itself up
+			// and unsubscribing. y's pair is owned by one goroutine, so whatever the interleaving, y must be
+			// found by the lookup that follows its subscribe, and in the end the index is empty.
+			rounds, _ := strconv.Atoi(w[1])
+			t := newTrie()
+			upper, lower := message.Ssid{1, 11, 12}, message.Ssid{1, 11, 12, 13, 11}
+			x, y := subOf2("x"), subOf2("y")
+			var wg sync.WaitGroup
+			stop := make(chan struct{})
+			wg.Add(1)
+			go func() {
+				defer wg.Done()
+				for {
+					select {
+					case <-stop:
+						return
+					default:
+					}
+					t.Subscribe(upper, x)
+					t.Unsubscribe(upper, x)
+				}
+			}()
+			res := "ok"
+			for i := 0; i < rounds && res == "ok"; i++ {
+				t.Subscribe(lower, y)
+				if found := t.Lookup(lower, nil); !found.Contains(y) {
+					res = fmt.Sprintf("lost round=%d", i)
+				}
+				t.Unsubscribe(lower, y)
+			}
+			close(stop)
+			wg.Wait()
+			if res == "ok" && (t.Count() != 0 || !strings.HasPrefix(dump(t), "nodes=1 ")) {
+				res = fmt.Sprintf("not-empty count=%d %s", t.Count(), dump(t))
+			}
+			return res
 		case "conc":
 			// 8 goroutines; every (path, id) pair is owned by exactly one goroutine, so the final
 			// state does not depend on the interleaving; lookups run concurrently
